@@ -426,6 +426,13 @@ func (pc *PartitionContext) removeApplication(appID string) []*objects.Allocatio
 		pc.updateAllocationCount(-len(allocations))
 		for _, alloc := range allocations {
 			currentAllocationKey := alloc.GetAllocationKey()
+			// a placeholder that is being replaced on another node: the replacement is already bound to that
+			// node but not yet part of the application's allocations, release it from its node as well
+			if release := alloc.GetRelease(); alloc.IsPlaceholder() && release != nil && release.GetNodeID() != alloc.GetNodeID() {
+				if releaseNode := pc.GetNode(release.GetNodeID()); releaseNode != nil {
+					releaseNode.RemoveAllocation(release.GetAllocationKey())
+				}
+			}
 			node := pc.GetNode(alloc.GetNodeID())
 			if node == nil {
 				log.Log(log.SchedPartition).Warn("unknown node: not found in active node list",
